@@ -219,7 +219,7 @@ func (n *node) depth() int {
 	return d + 1
 }
 
-func sp(r *mon.Rand) string { return r.Str("", " ", "  ") }
+func sp(r *mon.Rand) string { return r.Str("", " ", "  ", "\t", " \t") }
 
 // str prints with minimal parentheses, adding redundant ones and spacing at random.
 func (n *node) str(r *mon.Rand, parentPrio int, isRight bool) string {
